@@ -681,4 +681,63 @@ theorem lexS_float_exp (neg : Bool) (ip fp : List Char) (upper : Bool) (sign : O
   rw [hm]
   cases neg <;> simp [Bool.and_comm, neg_eq_zero]
 
+/-! ### decimals that start with the point (`.5`, `-.25`) -/
+
+theorem scan_float_dot (neg : Bool) (fp rest : List Char) (hne : fp ≠ []) (hf : ∀ c ∈ fp, isDig c = true)
+    (hlen : fp.length ≤ 5000) (hs : StopsAt (fun c => isDig c || c == 'e' || c == 'E') rest) :
+    ∃ c tl, signChars neg ++ ('.' :: (fp ++ rest)) = c :: tl ∧ isIdStart c = false ∧ (c ≠ ' ' ∧ c ≠ '\t') ∧ ((c == '-') = neg) ∧
+      scanFloat (c :: tl) = some (some (if neg then -decimalValue [] fp else decimalValue [] fp), rest) := by
+  have hsd : StopsAt isDig rest := stops_weaken hs (by intro c h; simp only [Bool.or_eq_false_iff] at h; exact h.1.1)
+  have hsp1 : spanDigits ('.' :: (fp ++ rest)) = ([], '.' :: (fp ++ rest)) := by
+    have := spanDigits_append [] ('.' :: (fp ++ rest)) (by simp) (stopsAt_cons (by decide))
+    simpa using this
+  have hsp2 := spanDigits_append fp rest hf hsd
+  have hfe : fp.isEmpty = false := by cases fp <;> simp_all
+  have hmant : scanMantissa ('.' :: (fp ++ rest)) = some ([], fp, rest) := by
+    unfold scanMantissa
+    rw [hsp1]
+    simp only [List.isEmpty_nil, Bool.not_true, Bool.false_eq_true, if_false, hsp2, hfe]
+  have hexp := scanExponent_stop rest hs
+  have hval : ∀ (ng : Bool), (match scanMantissa ('.' :: (fp ++ rest)) with
+      | none => none
+      | some (ip, fp, r3) =>
+        let (e, rest) := scanExponent r3
+        let m : Rat := (digitsVal (ip ++ fp) : Nat)
+        let scale : Int := e - fp.length
+        if scale.natAbs > 5000 then some (none, rest) else
+        let q := if scale ≥ 0 then m * ((10 : Rat) ^ scale.toNat) else m / ((10 : Rat) ^ (-scale).toNat)
+        some (some (if ng then -q else q), rest)) =
+      some (some (if ng then -decimalValue [] fp else decimalValue [] fp), rest) := by
+    intro ng
+    rw [hmant]
+    simp only [hexp]
+    have h1 : ¬ ((0 - (fp.length : Int)).natAbs > 5000) := by omega
+    rw [if_neg h1]
+    have h0 : fp.length ≠ 0 := by intro e; exact hne (List.length_eq_zero_iff.mp e)
+    have : ¬ ((0 - (fp.length : Int)) ≥ 0) := by omega
+    simp only [this, if_false]
+    have e : (-(0 - (fp.length : Int))).toNat = fp.length := by omega
+    rw [e]
+    rfl
+  cases neg with
+  | true =>
+    refine ⟨'-', '.' :: (fp ++ rest), by simp [signChars], by decide, by decide, by decide, ?_⟩
+    unfold scanFloat optSign
+    exact hval true
+  | false =>
+    refine ⟨'.', fp ++ rest, by simp [signChars], by decide, by decide, by decide, ?_⟩
+    have : optSign ('.' :: (fp ++ rest)) = (false, '.' :: (fp ++ rest)) := rfl
+    unfold scanFloat; rw [this]
+    exact hval false
+
+theorem lexS_float_dot (neg : Bool) (fp rest : List Char) (line : Nat) (hne : fp ≠ []) (hf : ∀ c ∈ fp, isDig c = true)
+    (hlen : fp.length ≤ 5000) (hs : StopsAt (fun c => isDig c || c == 'e' || c == 'E') rest) :
+    lexS (signChars neg ++ ('.' :: (fp ++ rest))) line = ⟨.float, floatTokVal neg [] fp, line⟩ :: lexS rest line := by
+  obtain ⟨c, tl, he, hid, hb, hm, hF⟩ := scan_float_dot neg fp rest hne hf hlen hs
+  rw [he, lexS_tok c tl line _ _ _ hb (scanOne_of_float c tl line _ rest hid hF)]
+  congr 2
+  unfold floatTokVal
+  rw [hm]
+  cases neg <;> simp [Bool.and_comm, neg_eq_zero]
+
 end MPilot.Lex
